@@ -211,7 +211,10 @@ class _Continue(Exception):
 
 
 class AEval:
-    def __init__(self, module=None, intrinsics=None, max_depth=6, max_steps=200000, typed=False, long_bits=None):
+    def __init__(self, module=None, intrinsics=None, max_depth=80, max_steps=200000, typed=False, long_bits=None):
+        import sys
+        if sys.getrecursionlimit() < 20000:
+            sys.setrecursionlimit(20000)          # a loop written as a tail recursion nests one interpreter activation per round
         self.module = module
         # long_bits=32: `long` / `unsigned long` are given the width they have on the 8- and 32-bit targets of the library (the
         # parser runs with the host's LP64 model, where they are 64 bits wide)
@@ -732,6 +735,25 @@ class AEval:
                              and not (len(c.params) == 1 and cls.split('::')[-1] in (c.params[0][1] or ''))]
                     if ctors:
                         from types import SimpleNamespace
+                        if len(ctors) > 1:
+                            # overloaded constructors of one arity: the one whose parameter types take the arguments (an object
+                            # of class K for a parameter naming K, a number for an integer parameter, null / an array for a pointer)
+                            def fits(c_):
+                                for (pn_, pt_), v_ in zip(c_.params, args):
+                                    pt_ = pt_ or ''
+                                    if isinstance(v_, AObj) and v_.cls:
+                                        if not _re_word(v_.cls.split('::')[-1].split('<')[0], pt_):
+                                            return False
+                                    elif isinstance(v_, bool) or isinstance(v_, int):
+                                        if int_type(pt_.replace('&', '').strip()) is None:
+                                            return False
+                                    elif v_ is None or isinstance(v_, (list, Ref)):
+                                        if '*' not in pt_:
+                                            return False
+                                return True
+                            good = [c_ for c_ in ctors if fits(c_)]
+                            if good:
+                                ctors = good
                         c = ctors[0]
                         ns = SimpleNamespace(params=[p for p, _t in c.params], ptypes=[t for _p, t in c.params], body=c.body, loc=c.loc, byref=())
                         self.call_function(c.name, args, depth + 1, recv=obj, chosen=ns)
@@ -772,7 +794,7 @@ class AEval:
             if kind == 'SetComp':
                 return set(out)
             return out
-        raise AnalysisError('abstract evaluation: expression kind %s at %s' % (k, e.loc))
+        raise AnalysisError('abstract evaluation: expression kind %s%s at %s' % (k, (' (%s)' % a[0]) if k == 'opaque' and a else '', e.loc))
 
     def call(self, e, env, depth):
         name, recv_e, args_e = e.a
